@@ -66,7 +66,7 @@ class Corruptor:
 	def __init__(self, ctx):
 		self.ctx = ctx
 		self.operators = ctx.driver.ask('ops').split(',')
-		self.cli_pool = []
+		self.cli_by_operator = {}
 		self.reported = {'corr': 0, 'property': 0}
 
 	def fail(self, kind, what, case):
@@ -99,8 +99,11 @@ class Corruptor:
 						self.fail('corr', f'model accepts a corrupted document the parser rejects (operator {operator}, site {site} of {label}): {first_difference(text, corrupted)}', case)
 				elif 'rejected' == verdict[0] and verdict[2] is not None:
 					ctx.count('error-line:' + ('same' if str(verdict[2]) == model_verdict else 'differs'))
-				if 'accepted' != verdict[0] and len(self.cli_pool) < 400 and ctx.rng.random() < 0.05:
-					self.cli_pool.append(case)
+				# the command-line / multi-file path gets a stratified sample: every operator is represented
+				if 'accepted' != verdict[0]:
+					bucket = self.cli_by_operator.setdefault(operator, [])
+					if len(bucket) < 40 and (len(bucket) < 4 or ctx.rng.random() < 0.05):
+						bucket.append(case)
 
 
 def first_difference(original, corrupted):
@@ -115,8 +118,15 @@ def command_line(ctx, corruptor, how_many, subprocesses):
 	"""a corrupted file reached through an import: non-zero exit status, no output file."""
 	impl = c17.Implementation(ctx)
 	ctx.notes.append(f'yaml for the CLI runs: {impl.yaml_kind}')
-	pool = corruptor.cli_pool
-	ctx.rng.shuffle(pool)
+	# round-robin over the operators so that each corruption class reaches the multi-file parser and the CLI
+	buckets = [list(bucket) for _, bucket in sorted(corruptor.cli_by_operator.items())]
+	for bucket in buckets:
+		ctx.rng.shuffle(bucket)
+	pool = []
+	while any(buckets):
+		for bucket in buckets:
+			if bucket:
+				pool.append(bucket.pop())
 	for number, case in enumerate(pool[:how_many]):
 		directory = os.path.join(ctx.tmpdir(), f'cli{number}')
 		os.makedirs(os.path.join(directory, 'inc', 'sub'), exist_ok=True)
